@@ -1,6 +1,7 @@
-(** C01 — model of the token loop of [Keyvalues.parse] with its default options
-    (newline_keys=False, newline_values=True, single_line=False, single_block=False), including [flag]
-    handling; [flag_on] stands for [_read_flag(flags, text)].
+(** C01 — model of the token loop of [Keyvalues.parse], with the options [newline_keys], [newline_values],
+    [single_line], [single_block] ([O : popts]; [allow_escapes] is fixed to True) and [flag] handling;
+    [flag_on] stands for [_read_flag(flags, text)] (modelled in KV/KvFlags.v).  The characters tested by the
+    two 'Illegal newline' checks come from the source ([P : parsecfg], regenerated).
 
     The tokenizer is lazy in Python; here the complete token list is computed first together with the error
     (if any) the tokenizer raises after the last token ([fin]).  The loop below asks for tokens strictly in
@@ -19,7 +20,13 @@ Definition frame := (option str * list kv)%type.
 Definition kv_name (k : kv) : str := match k with Leaf n _ => n | Block n _ => n end.
 Definition is_block (k : kv) : bool := match k with Block _ _ => true | Leaf _ _ => false end.
 
+(** ['c' in text or 'd' in text ...] *)
+Definition brk (t : brktest) (s : str) : bool :=
+  match t with BTChars l => existsb (fun c => mem c l) s | BTOther => false end.
+
 Section Parse.
+  Variable P : parsecfg.
+  Variable O : popts.
   Variable flag_on : str -> bool.
   Variable fin : option lexerr.     (* error raised by the tokenizer after the last token, if any *)
 
@@ -30,12 +37,27 @@ Section Parse.
   Definition add_flagged (cfr : bool) (k : kv) (cs : list kv) : option (list kv) :=
     if cfr then
       match cs with
-      | [] => None                                   (* cur_block_contents[-1] on an empty list *)
+      | [] => if p_replace_guard P then Some [k]     (* `can_flag_replace and cur_block_contents and ...` *)
+              else None                              (* cur_block_contents[-1] on an empty list *)
       | last :: cs' =>
           if str_eqb (kv_name last) (kv_name k) && Bool.eqb (is_block last) (is_block k)
           then Some (k :: cs') else Some (k :: cs)
       end
     else Some (k :: cs).
+
+  Definition key_bad (n : str) : bool := negb (po_newline_keys O) && brk (p_key_break P) n.
+  Definition value_bad (v : str) : bool := negb (po_newline_values O) && brk (p_value_break P) v.
+
+  (** [single_block and cur_block is root]: the root is the current block iff no frame is stacked. *)
+  Definition sb_root (stk : list frame) : bool :=
+    po_single_block O && match stk with [] => true | _ => false end.
+  (** [return root[0]] at a closing brace; [k] is what happens when the test is guarded by [root._value] and
+      root has no child (the closed block was skipped by its flag): the loop goes on. *)
+  Definition root_first (cs_rev : list kv) (k : pres) : pres :=
+    match rev cs_rev with
+    | x :: _ => PNode x
+    | [] => if p_single_block_guard P then k else PErr EIndex
+    end.
 
   (** The checks made when the token stream is exhausted. *)
   Definition pfinal (stk : list frame) (cur : frame) (b : bl) : pres :=
@@ -65,7 +87,7 @@ Section Parse.
         | BNone =>
           match t with
           | TStr n =>
-              if has_linebreak n then PErr ENewlineKey else
+              if key_bad n then PErr ENewlineKey else
               match r with
               | [] => at_end (PErr EEofBlock)
               | TFlag f :: r2 =>
@@ -81,22 +103,28 @@ Section Parse.
                   | _ :: _ => PErr EExpectedNewline
                   end
               | TStr v :: r2 =>
+                  if value_bad v then PErr ENewlineValue else
                   match r2 with
-                  | [] => at_end (pfinal stk (fst cur, Leaf n v :: snd cur) BNone)
+                  | [] => at_end (if sb_root stk then PNode (Leaf n v)
+                                  else pfinal stk (fst cur, Leaf n v :: snd cur) BNone)
                   | TFlag f :: r3 =>
                       match r3 with
                       | [] => at_end (PErr EExpectedNewline)
                       | TNL :: r4 =>
                           if flag_on f then
                             match add_flagged cfr (Leaf n v) (snd cur) with
-                            | Some cs => prun stk (fst cur, cs) BNone false r4
+                            | Some cs => if sb_root stk then PNode (Leaf n v)
+                                         else prun stk (fst cur, cs) BNone false r4
                             | None => PErr EIndex
                             end
                           else prun stk cur BNone cfr r4
                       | _ :: _ => PErr EExpectedNewline
                       end
-                  | TStr _ :: _ => PErr EMultipleNames
-                  | _ :: _ => prun stk (fst cur, Leaf n v :: snd cur) BNone true r2
+                  | TStr _ :: _ =>
+                      if po_single_line O then prun stk (fst cur, Leaf n v :: snd cur) BNone cfr r2
+                      else PErr EMultipleNames
+                  | _ :: _ => if sb_root stk then PNode (Leaf n v)
+                              else prun stk (fst cur, Leaf n v :: snd cur) BNone true r2
                   end
               | _ :: _ => prun stk (fst cur, Block n [] :: snd cur) BExpect false r
               end
@@ -104,10 +132,12 @@ Section Parse.
               match stk with
               | [] => PErr ETooManyClose
               | (pn, pcs) :: stk' =>
-                  prun stk' (pn, match fst cur with
-                                 | Some n => Block n (rev (snd cur)) :: pcs
-                                 | None => pcs
-                                 end) BNone true r
+                  let pcs' := match fst cur with
+                              | Some n => Block n (rev (snd cur)) :: pcs
+                              | None => pcs
+                              end in
+                  if sb_root stk' then root_first pcs' (prun stk' (pn, pcs') BNone true r)
+                  else prun stk' (pn, pcs') BNone true r
               end
           | _ => PErr EUnexpected
           end
@@ -115,9 +145,13 @@ Section Parse.
     end.
 End Parse.
 
-(** [Keyvalues.parse(text)] *)
-Definition parse_toks (flag_on : str -> bool) (tf : list tok * option lexerr) : pres :=
-  prun flag_on (snd tf) [] (None, []) BNone false (fst tf).
+(** [Keyvalues.parse(text, newline_keys=..., newline_values=..., single_line=..., single_block=...)] *)
+Definition parse_toks_opts (P : parsecfg) (O : popts) (flag_on : str -> bool) (tf : list tok * option lexerr) : pres :=
+  prun P O flag_on (snd tf) [] (None, []) BNone false (fst tf).
 
-Definition parse_kv (E : escfg) (flag_on : str -> bool) (text : str) : pres :=
-  parse_toks flag_on (lex_all E text).
+Definition parse_kv_opts (P : parsecfg) (O : popts) (E : escfg) (flag_on : str -> bool) (text : str) : pres :=
+  parse_toks_opts P O flag_on (lex_all E text).
+
+(** [Keyvalues.parse(text)] with the default options. *)
+Definition parse_toks (P : parsecfg) := parse_toks_opts P default_popts.
+Definition parse_kv (P : parsecfg) := parse_kv_opts P default_popts.
